@@ -128,6 +128,11 @@ def run(res, replay=None):
         for mdl in ({'kind': 'dirac', 'psi': 0.5, 'c': 1.0, 'scale_time': True}, {'kind': 'beta', 'alpha': 1.5, 'scale_time': True}):
             sp = {'n_items': [['a', 4]], 'model': mdl, 'pop_sizes': {'a': {'0.0': 1.0, '0.5': 4.0, '2.0': 0.5}}, 'designed': 'scaled_mm_size_change'}
             items.append(dict(spec=sp, lc=False, ops=[o for o in build_ops(rng, sp) if o['py'].get('path') in ('sfs.mean', 'fsfs.mean', 'sfs.var')]))
+        # a very short, very strong bottleneck (the piecewise-constant stand-in for an instantaneous one): an epoch far shorter than
+        # 1e-5 of its end time still carries 5 coalescent units
+        sp = {'n_items': [['a', 4]], 'model': {'kind': 'kingman'}, 'pop_sizes': {'a': {'0.0': 1.0, '1.0': 1e-6, '1.000005': 1.0}},
+              'designed': 'short_strong_bottleneck'}
+        items.append(dict(spec=sp, lc=False, ops=[o for o in build_ops(rng, sp) if o['py'].get('path') in ('sfs.mean', 'fsfs.mean')]))
     # SFS accumulation curves on several points at once (points inside epochs, on boundaries, beyond the last change)
     for s in specs[: (3 if res.tier == 'quick' else 15)]:
         if s.get('start_time'):
